@@ -1035,6 +1035,11 @@ class Engine:
                     outcome = ("return", res)
                 except RaiseSignal as r:
                     outcome = ("raise", r.exc_cls, getattr(r.node, "lineno", 0))
+                except (PathEnd, Unsupported, ReturnSignal, BreakSignal, ContinueSignal):
+                    raise
+                except (TypeError, AttributeError, KeyError, IndexError, ValueError) as ex:
+                    # the interpreter met code it has no model for (e.g. an operation on a ghost value): outside the subset, not a verdict
+                    raise Unsupported(f"the code leaves the modelled subset: {type(ex).__name__}: {str(ex)[:160]}")
                 if outcome[0] == "raise":
                     allowed = contract.raises_only
                     cls = outcome[1]
